@@ -22,6 +22,10 @@ UnstatShapes == {
     "0Thru\tx/extra", "0MboxMsg\tm.mbox/MBOX-MESSAGE/2", "0PygExtra\ts.pyg/extra", "0ZipMember\t/abs/a.zip/member",
     "0LongComp\t" \o Rep("n", 300), "1LongAbs\t/abs/" \o Rep("n", 256) \o "/y",
     "0Nul\tx{NUL}y", "0High\t/abs/{HI}z"}
+\* spellings of a WRITTEN port: it is listed as written (numerically), never replaced by this server's
+PortShapes == {"3Gone\t/gone\terror.host\t0", "1Zero2\t/r\tr.example\t00", "1Lead\t/r\tr.example\t0070",
+               "1PlusSign\t/r\tr.example\t+70", "1Max\t/r\tr.example\t65535", "1Big\t/r\tr.example\t70000",
+               "iNote\tfake\t(NULL)\t00"}
 LinkShapes == {
     "1src\t", "0read me\t",                                                        \* 1 field + TAB
     "1Abs\t/abs", "1Abs sub\t/abs/sub", "0Rel\tx", "1Rel dir\tsub", "0Deep\tsub/y", \* 2 fields
@@ -31,7 +35,7 @@ LinkShapes == {
     "1Full\t/r\tr.example\t7070", "1NoHost\t/abs\t\t7070", "1EmptyPort\t/r\tr.example\t", "1BothEmpty\t/abs\t\t",  \* 4 fields
     "1DescSel4\t\tr.example\t70", "1Padded4\t /r \t r.example \t 7070 ", "0RelFull\tx\tr.example\t7070",
     "7RemoteSearch\t/q\tr.example\t70", "1 a < b & c\t/abs"}
-    \cup UnstatShapes
+    \cup UnstatShapes \cup PortShapes
 
 \* outside "well-formed" (E.2): replayed for the design-level comparison only
 BadShapes == {"1Five\t/r\tr.example\t70\t+", "1BadPort\t/r\tr.example\tabc", "\t/notype", "1\t", " \t "}
@@ -55,6 +59,8 @@ Good == InfoShapes \cup LinkShapes
 \* triples (thorough) leave out shapes that repeat the case analysis of another shape
 Core == Good \ {"0read me\t", "1Abs sub\t/abs/sub", "0Deep\tsub/y", "hSlashURL\t/URL:http://h.example/", "1Padded4\t /r \t r.example \t 7070 ",
                  "1DescSel4\t\tr.example\t70", "7RemoteSearch\t/q\tr.example\t70", "1EmptyPort\t/r\tr.example\t", "1BothEmpty\t/abs\t\t",
+                 "1Zero2\t/r\tr.example\t00", "1Lead\t/r\tr.example\t0070", "1PlusSign\t/r\tr.example\t+70", "1Max\t/r\tr.example\t65535",
+                 "1Big\t/r\tr.example\t70000", "iNote\tfake\t(NULL)\t00",
                  "0PygExtra\ts.pyg/extra", "0MboxMsg\tm.mbox/MBOX-MESSAGE/2", "1LongAbs\t/abs/" \o Rep("n", 256) \o "/y"}
 
 Cases ==
